@@ -11,7 +11,7 @@ import (
 )
 
 // asyncFrom turns a script pair into one whose client cancels at an arbitrary position p of its
-// script (whatever is in flight then), looks at RecvMsg once or twice and sometimes at Header / Trailer.
+// script (whatever is in flight then), looks at RecvMsg once or twice and sometimes at Header() / Trailer().
 func asyncFrom(r *rand.Rand, c scase) (scase, bool) {
 	if c.Shape == "unary" || strings.ContainsAny(c.Cli, "xd") {
 		return c, false
@@ -32,13 +32,21 @@ func asyncFrom(r *rand.Rand, c scase) (scase, bool) {
 		}
 	}
 	post := []string{"x", "r"}
-	switch r.Intn(6) {
+	switch r.Intn(9) {
 	case 0:
 		post = append(post, "t")
 	case 1:
 		post = []string{"x", "r", "r"}
 	case 2:
 		post = []string{"x", "r", "r", "r", "t"}
+	case 3:
+		// Header() after the abort: the header the handler has SENT by the time the client looks, never what it
+		// has only staged
+		post = []string{"x", "h", "r"}
+	case 4:
+		post = []string{"x", "r", "h"}
+	case 5:
+		post = []string{"x", "h", "r", "h", "r"}
 	}
 	c.Cli = joinOps(append(pre, post...))
 	if c.Out == "~" {
